@@ -13,7 +13,7 @@
 (*                                                                         *)
 (* For every function in Funs, every destination precision in PRECS (the    *)
 (* _mp_prec FIELD, so mpf_get_prec = W*(prec-1) bits, SemF!PrecBits), every *)
-(* pair of operands of 0..prec+2 limbs over LIMBS with non-zero top limb,   *)
+(* pair of operands of 0..prec+XS limbs over LIMBS with non-zero top limb,   *)
 (* all four sign pairs, every exponent difference -(prec+3)..prec+3 and     *)
 (* every alias in Aliases, TLC checks                                      *)
 (*  (a) format: |size| <= prec+1, limbs in 0..B-1, top limb # 0, zero has   *)
@@ -35,6 +35,7 @@ CONSTANTS W,          \* limb width in bits
           Funs,       \* subset of {"add","sub","ui_sub","sub_ui","add_ui","mul","div"}
           Aliases,    \* subset of {"none","ru","rv","ruv"}
           USigns,     \* signs of u: {1,-1}, or {1} (v still takes both signs: every code path is reached, only the final "negate" twin is dropped)
+          XS,         \* operands have 0..prec+XS limbs (2: up to one limb more than r can hold; 3: reaches the truncation inside "cancellation")
           Checker,    \* "semf": SemF!AccurateDy on hex-string dyadics (any W) | "int": the same rule on TLC integers (spans below 31 bits) | "both": both, and they must agree
           Variant
 
@@ -431,8 +432,8 @@ vars == <<phase, par, ud>>
 Init == phase = 0 /\ par = <<>> /\ ud = <<>>
 Pick == /\ phase = 0 /\ phase' = 1 /\ ud' = ud
         /\ par' \in {[fn |-> f, prec |-> p, usize |-> n, alias |-> a, ediff |-> e] :
-                        f \in Funs \cap {"add", "sub"}, p \in PRECS, n \in 0..(PMAX + 2), a \in Aliases, e \in (-(PMAX + 3))..(PMAX + 3)}
-        /\ par'.usize <= par'.prec + 2 /\ AbsI(par'.ediff) <= par'.prec + 3
+                        f \in Funs \cap {"add", "sub"}, p \in PRECS, n \in 0..(PMAX + XS), a \in Aliases, e \in (-(PMAX + 3))..(PMAX + 3)}
+        /\ par'.usize <= par'.prec + XS /\ AbsI(par'.ediff) <= par'.prec + 3
         /\ (par'.alias \in {"ru", "ruv"}) => par'.usize <= par'.prec + 1      \* an operand that IS r has at most prec+1 limbs
         /\ (par'.alias = "ruv") => par'.ediff = 0
 Fill2 == /\ phase = 1 /\ phase' = 2 /\ par' = par
@@ -444,7 +445,7 @@ Correct ==
    phase = 2 =>
      IF par.alias = "ruv"
      THEN \A s \in USigns : CheckAors(par.fn, par.prec, "ruv", ud, s, ud, s, 0) \/ Witness(<<"MpfAddSub", par, ud, s>>)
-     ELSE \A vn \in 0..(par.prec + 2) : (par.alias = "rv" => vn <= par.prec + 1) =>
+     ELSE \A vn \in 0..(par.prec + XS) : (par.alias = "rv" => vn <= par.prec + 1) =>
             \A vd \in Mants(vn), su \in USigns, sv \in {1, -1} :
                CheckAors(par.fn, par.prec, par.alias, ud, su, vd, sv, par.ediff) \/ Witness(<<"MpfAddSub", par, ud, su, vd, sv>>)
 =============================================================================
